@@ -66,6 +66,15 @@ CLAIMED = {
         "operations and compared pairwise and with the model.",
    technique="Lean 4 proof (selection/element-wise commutation over nested arrays, parametric scalar) + three-backend differential run",
    design="§5 C08"),
+ "C09": dict(
+   text="Theorems (Props/C09.lean) about the executable model of the body operations, for an arbitrary scalar type with arbitrary arithmetic (so the garbage may be NaN or ±inf): VisEq relates two constructor-made bodies with the same "
+        "confidences and frame rate that agree at every point whose confidence is not 0 (visEq_pointwise); related bodies show the same confidences, missing pattern and zero-filled coordinates (visEq_view); zero-filling yields exactly 0 at "
+        "every missing point and leaves the others alone (zeroFilled_exact); frame / point selection, stepping and flip map related bodies to related bodies on every backend, and zero-fill, the NumPy matrix product, bounding boxes and "
+        "linear interpolation map them to the SAME body (…_ni); focus to related bodies and the same header dimensions (focus_ni); hence for EVERY program over these nine operations the two runs fail together or end with the same visible "
+        "result (run_ni, program_noninterference). Partial: normalisation, the spline interpolants, the masked-tensor representations, augmentation and serialisation are not in the Lean model — they are decided on the implementation by the "
+        "two-run check (two fillings of the missing slots incl. NaN / ±inf / ±3e38, same operation sequence, visible results compared exactly after every step, NumPy / torch / tensorflow). Known finding K4 (3-D normaliser).",
+   technique="Lean 4 proof (relational two-run invariant over nested arrays, induction over programs) + differential two-run execution on three backends and model correspondence",
+   design="§5 C09"),
  "C10": dict(
    text="Theorem (Props/C10.lean) run_refines: for EVERY straight-line program over the modelled API (indexing, slicing, gather, permute/transpose, squeeze, unsqueeze, reshape, split parts, cat, stack, elementwise ops with masked and "
         "scalar operands, pow, square, sqrt, strict sum, tf mean/variance/std, square matmul, fix_nan), every shape, every mask, every scalar type and every interpretation of the arithmetic (no law assumed: holds with NaN/±inf), "
